@@ -406,7 +406,7 @@ def main():
                      "kind_free_text": "explicit TLA+ specifications (specs/) checked with TLC; TLC-generated behaviours replayed into the real Pyro5 code "
                                        "under a deterministic in-memory transport / thread scheduler; recorded traces validated by TLC in batches"}],
         "checks": checks,
-        "notes": "Specification modules beyond the listed properties (DESIGN.md section 12: E01 auto-cleaner, E02 proxy life cycle, E03 name resolution, E04 daemon life cycle, E05 oneway calls, E06 the client's view through a proxy, E07 serialized blobs, E08 configuration from the environment, E09 daemon locations, E10 timeouts retries and reconnecting in virtual time, E11 what a proxy carries when it is copied or travels, E12 callbacks, E13 combined request loops) run as ./check E01 ... ./check E13 with the same contract; they are not claims. Exit codes: 0 held, 1 VIOLATION, 2 machinery failure. Genuine defects repaired are listed in known_findings.json (fixed:), unrepaired ones under known.",
+        "notes": "Specification modules beyond the listed properties (DESIGN.md section 12: E01 auto-cleaner, E02 proxy life cycle, E03 name resolution, E04 daemon life cycle, E05 oneway calls, E06 the client's view through a proxy, E07 serialized blobs, E08 configuration from the environment, E09 daemon locations, E10 timeouts retries and reconnecting in virtual time, E11 what a proxy carries when it is copied or travels, E12 callbacks, E13 combined request loops, E14 the call context during the handshake validator) run as ./check E01 ... ./check E14 with the same contract; they are not claims. Exit codes: 0 held, 1 VIOLATION, 2 machinery failure. Genuine defects repaired are listed in known_findings.json (fixed:), unrepaired ones under known.",
         "not_applicable": [{"property_id": p, "reason": NOT_YET.get(p, "check not built yet in this round (planned, see DESIGN.md section 6)")} for p in ALL if p not in CHECKS],
     }
     with open(os.path.join(HERE, "MANIFEST.json"), "w") as f:
